@@ -70,6 +70,23 @@ CHECKS = {
         level_note="protobuf is opaque; corrupted streams oracle-only; entries larger/smaller than the 1 MiB buffer take different branches in the Go code and identical bytes in the model (compared).",
         technique="Lean 4 proof (stateful codec round trip, framing round trip, truncation at every offset) + byte-for-byte differential run",
     ),
+    'C19': dict(
+        gens=['Sync'],
+        props='ZanVerif.Props.C19',
+        protos=[dict(name='sync', quick_seeds=1, thorough_seeds=2)],
+        rule="delivery sequences from 1-2 source clusters: in-order batches, stale re-sends of random old entries, sender restarts from earlier positions (overlapping batches), arbitrary (term, index) garbage, entries the state machine ignores (failed remote-snapshot apply), "
+             "snapshots, restores with replay of the local log tail, the admin position override; each entry goes through the REAL KVNode.applyEntry around a recording state machine; non-trivial = answered without error; distinct = distinct op lines",
+        trusted=["the recording state machine of the harness stands for the data (the effect of an entry is 'its source index was applied')",
+                 "a bare KVNode (no raft, no storage) is enough for applyEntry: anything that needs more would crash the harness run"],
+        partial=["'never skips an entry' depends on the sender resuming at <= synced+1: isContinueCommit only logs gaps (theorem C19_exactly_once_step is the per-step statement under that hypothesis)",
+                 "SetRemoteClusterSyncedRaft (admin API) can move the position backwards by design; it is excluded from the monotonicity oracles and theorems",
+                 "remote snapshot transfer/apply status machine (AddApplyingSnap …) is not modelled beyond 'ignored => no position update'",
+                 "the gRPC receive-time filter is tied by its regenerated expression only (C19_receive_filter_same)"],
+        assumptions=["source entries have index >= 1 (an entry with OrigTerm = OrigIndex = 0 is not position-tracked by postprocessRemoteApply)"],
+        level_text="Theorems, for EVERY delivery sequence over any number of source clusters (no assumption on the sender): applied source indexes are strictly increasing per cluster (at most once, no duplicate effect); the synced position never moves backwards and moves only in a step whose effect ran, to that entry's own position; the position always covers the data; re-delivering ANY part of what was delivered changes neither data nor position (replay idempotence), hence restore-from-snapshot + replay of the tail (or of more than the tail) reproduces the pre-crash pair; per-step exactly-once under a sender that resumes at synced+1. The skip condition and the update guard are regenerated from node/remote_sync_mgr.go (and the gRPC receive filter from server/grpc_api.go is proved to be the same predicate). The model is tied to the real KVNode.applyEntry / RestoreFromSnapshot by differential runs.",
+        level_note="state machine effects are abstract; sender behaviour is a hypothesis for 'never skips'; admin override excluded.",
+        technique="Lean 4 proof (inductive invariant + replay idempotence over regenerated filter) + differential run of the real apply path",
+    ),
 }
 
 # properties not (yet) claimed, with the reason; bin/mkmanifest drops an entry as soon as CHECKS has it
